@@ -38,7 +38,7 @@ def _tag(s):
     return "(str %s)" % (b"w:".hex() + ("" if h == "-" else h))
 
 
-WITH = {"de_plus1": (("u", 32), _plus1), "de_tag": ("str", _tag), "de_some_plus1": (("u", 32), lambda s: "(some %s)" % _plus1(s))}
+WITH = {"de_plus1": (("u", 32), _plus1), "de_tag": ("str", _tag), "de_some_plus1": (("u", 32), lambda s: "(none)" if int(s[3:-1]) == 2 ** 32 - 1 else "(some %s)" % _plus1(s))}
 
 NEW = ["DW", "DWT", "DK", "DO", "DOF", "DAr", "DGen_u32", "DGen_String", "DGen_DOF", "DGW_u32", "DGW_String", "DGT_i32", "DL", "DN",
        "D1T"]      # w_derive: one field, with a token (key hint `token_count > 0`)
